@@ -448,6 +448,40 @@ fn judge_case(c: &K) -> Verdict {
                 }
             }
         }
+        K::LocalKeys(variant) if *variant >= 5 => {
+            // mouse buttons: the button an action names is written to the OS (on the real
+            // output) as the code the same name has in defsrc
+            v.classes.push("mouse-button-code");
+            let names = ["mlft", "mrgt", "mmid", "mbck", "mfwd"];
+            let name = names[(*variant as usize - 5) % names.len()];
+            let Some(code) = kanata_state_machine::str_to_oscode(name) else {
+                return Verdict::failed("identity:mouse-button-name-unknown", name.to_string());
+            };
+            let cfg = format!("(defcfg log-layer-changes no)\n(defsrc a)\n(deflayer l {name})\n");
+            let files: rustc_hash::FxHashMap<String, String> = Default::default();
+            let parsed = match kanata_parser::cfg::new_from_str(&cfg, files) {
+                Ok(p) => p,
+                Err(e) => return Verdict::failed("harness:config-rejected", format!("{cfg}{e:?}")),
+            };
+            let layout = parsed.layout.b();
+            let a_col = u16::from(kanata_state_machine::str_to_oscode("a").expect("a")) as usize;
+            let cell = &layout.layers[0][0][a_col];
+            use kanata_keyberon::action::Action;
+            use kanata_parser::custom_action::CustomAction;
+            let btn = match cell {
+                Action::Custom(cs) => cs.iter().find_map(|c| if let CustomAction::Mouse(b) = c { Some(*b) } else { None }),
+                _ => None,
+            };
+            let Some(btn) = btn else {
+                return Verdict::failed("identity:mouse-button-action", format!("{cfg}the cell is {cell:?}"));
+            };
+            let out = kanata_state_machine::OsCode::from(btn);
+            if out != code {
+                return Verdict::failed("identity:mouse-button-code", format!("action `{name}` is button {btn:?}, written to the OS as {out:?}, but the name denotes {code:?}"));
+            }
+            v.nontrivial = true;
+            return v;
+        }
         K::LocalKeys(variant) => {
             v.classes.push("localkeys");
             // names that deflocalkeys may redefine, and a brand-new name
@@ -587,7 +621,7 @@ impl TypedProp for C11 {
         extra.insert("exhaustive_parts".into(), json!("all 65536 u16 values (conversion round trips, enum discriminant sets read from the tree), every valid code 0..=767 x 3 pipeline configs, every accepted key name x 8 contexts"));
         PropInfo {
             level: "exploration",
-            rule: "enumerated parts (exhaustive): every u16 value for the OsCode/KeyCode conversions (from_u16 domain = declared discriminants, as_u16/transmute round trips, the two enums' discriminant sets coincide); every valid code through three pipeline configs (mapped to itself, transparent, unmapped with process-unmapped-keys) must come out as the same code on press and release (reserved 0x2a4..=0x2ad never); every key name accepted by str_to_oscode must denote the same code as a layer action, macro item, fork trigger, switch key, override input, chords-v2 participant, defseq key and defsrc entry. Random part: mapped-key set of configs with random defsrc subsets, deflayermap inputs, process-unmapped-keys yes/no/(all-except ..) equals the set computed by the harness. Each code / name / config is its own non-trivial case.",
+            rule: "enumerated parts (exhaustive): every u16 value for the OsCode/KeyCode conversions (from_u16 domain = declared discriminants, as_u16/transmute round trips, the two enums' discriminant sets coincide); every valid code through three pipeline configs (mapped to itself, transparent, unmapped with process-unmapped-keys) must come out as the same code on press and release (reserved 0x2a4..=0x2ad never); every key name accepted by str_to_oscode must denote the same code as a layer action, macro item, fork trigger, switch key, override input, chords-v2 participant, defseq key and defsrc entry. every mouse-button name as an action must be written to the OS as the code the name denotes in defsrc (OsCode::from(Btn), the conversion the real output uses). Random part: mapped-key set of configs with random defsrc subsets, deflayermap inputs, process-unmapped-keys yes/no/(all-except ..) equals the set computed by the harness. Each code / name / config is its own non-trivial case.",
             assumptions: vec!["Linux key tables only".into(), "names / enum bodies are read from the tree under test".into()],
             extra,
         }
@@ -603,7 +637,7 @@ impl TypedProp for C11 {
             n_cases: n,
             exhaustive: false,
             distinct_by_construction: false,
-            required_classes: vec!["code", "pipeline", "name", "localkeys", "mapped-keys"],
+            required_classes: vec!["code", "pipeline", "name", "localkeys", "mouse-button-code", "mapped-keys"],
             hang_secs: 60,
         }
     }
@@ -622,7 +656,8 @@ impl TypedProp for C11 {
             return Gen::Fixed(K::Name(n.clone(), (idx % N_CTX) as u8));
         }
         let idx = idx - t.names.len() as u64 * N_CTX;
-        if idx < 5 {
+        if idx < 10 {
+            // (5..10: the five mouse buttons)
             return Gen::Fixed(K::LocalKeys(idx as u8));
         }
         Gen::Strat(0)
